@@ -232,6 +232,47 @@ example : (match (applyUpdate 4 [] (.dict [("A", .dict [("_add", .list [.dict [(
     | .ok r => r.2.1.keysAt ["A"]
     | .error _ => none) = some ["x", "n"] := by decide
 
+/-- **A key listed twice in one `_add` is rejected at its second entry**: "adding an existing key is
+rejected" also holds for a key that exists because an earlier entry of the same list created it
+(plain branch, as `add_plain_exact`).  The first entry has been carried out by then — the update
+raises, the engine does not continue. -/
+theorem add_list_repeated_key_rejected (fuel : Nat) (here : Path) (k : String) (state state2 : Val)
+    (t n : Tree)
+    (hn : t.get here = some n) (hk : AL.lookup k n.inner = none)
+    (hsub : n.attrs.subschema = []) (hproc : n.attrs.value.isProc = false)
+    (hdots : k ≠ "..") (huid : k ≠ "_unique_id")
+    (hstate : ∀ kvs, state ≠ .dict kvs) :
+    (forEach (storeAdd fuel here) [.dict [("key", .str k), ("state", state)],
+        .dict [("key", .str k), ("state", state2)]]).run t = .error .exception := by
+  obtain ⟨t', log, hrun, _, _, hget⟩ :=
+    add_plain_exact fuel here k state t n hn hk hsub hproc hdots huid hstate
+  have h2 := add_rejects_existing fuel here k state2 t' _ hget
+    (by simp [AL.has, Tree.inner])
+  simp [forEach, hrun, h2]
+
+/-- … and a later entry that names a key the branch already held is rejected although the entries
+before it were fresh. -/
+theorem add_list_later_existing_rejected (fuel : Nat) (here : Path) (k k1 : String) (state state2 : Val)
+    (t n : Tree)
+    (hn : t.get here = some n) (hk : AL.lookup k n.inner = none) (hk1 : AL.has k1 n.inner = true)
+    (hsub : n.attrs.subschema = []) (hproc : n.attrs.value.isProc = false)
+    (hdots : k ≠ "..") (huid : k ≠ "_unique_id")
+    (hstate : ∀ kvs, state ≠ .dict kvs) :
+    (forEach (storeAdd fuel here) [.dict [("key", .str k), ("state", state)],
+        .dict [("key", .str k1), ("state", state2)]]).run t = .error .exception := by
+  obtain ⟨t', log, hrun, _, _, hget⟩ :=
+    add_plain_exact fuel here k state t n hn hk hsub hproc hdots huid hstate
+  have hne : k1 ≠ k := by
+    intro h; subst h; simp [AL.has, hk] at hk1
+  have h2 := add_rejects_existing fuel here k1 state2 t' _ hget
+    (by simpa [AL.has, Tree.inner, AL.lookup_set_other hne] using hk1)
+  simp [forEach, hrun, h2]
+
+example : (match (applyUpdate 4 [] (.dict [("A", .dict [("_add", .list [.dict [("key", .str "n"),
+      ("state", .int 3)], .dict [("key", .str "n"), ("state", .int 4)]])])]) none).run exTree with
+    | .error e => some e
+    | .ok _ => none) = some Err.exception := by decide
+
 /-! ## Order of a combined update -/
 
 /-- **The processing order** extracted from `Store.apply_update` (`Generated.structuralOrder`,
@@ -355,6 +396,65 @@ example : (match (applyUpdate 4 [] (.dict [("A", .dict [("_move", .list [.dict [
     | .ok r => (r.2.1.keysAt ["A"], r.2.1.keysAt ["B"], r.2.1.keysAt ["B", "k"],
                 r.1.map (fun rep => rep.deletions.length))
     | .error _ => (none, none, none, none)) = (some ["j"], some ["b", "k"], some ["x"], some 1) := by decide
+
+/-- **`_move` with a source path of two segments, exactly** (`source = (c, k)` below `here`, the target
+already holding a child `c` that does not yet hold `k`, and the place of arrival not above the
+source's parent): the subtree that was at `here/c/k` is assigned, identically, to `tgt/c/k`; it is
+then removed from `here/c` — from the parent it was attached to, not from `here` — nothing else is
+written, and the report lists every process of the subtree at `tgt/c/k/…` (fix F56) and
+`here/c/k` as the deletion. -/
+theorem move_exact_two (rec : Path → Val → Option Path → FM (Option Report)) (here : Path)
+    (c k port : String) (pp : Path) (pname : String) (rel tgt : Path) (t src cn pn tn tcn : Tree) (tp : KVs)
+    (hc : c ≠ "..") (hk : k ≠ "..")
+    (hcn : t.get (here ++ [c]) = some cn)
+    (hsrc : t.get (here ++ [c, k]) = some src)
+    (hps : t.get (pp ++ [pname]) = some pn) (htopo : pn.attrs.topology = .dict tp)
+    (hport : KV.lookup port tp = some (pathVal rel))
+    (hwalk : walkT t pp rel = .ok tgt) (htn : t.get tgt = some tn)
+    (hnp : tn.attrs.value.isProc = false)
+    (hchild : AL.lookup c tn.inner = some tcn)
+    (htcn : t.get (tgt ++ [c]) = some tcn)
+    (hcfg : applyConfig tcn (.dict []) = .ok tcn)
+    (hcol : collides (getValue tcn) k = .ok false)
+    (hout : ¬ (tgt ++ [c, k] <+: here ++ [c])) :
+    ∃ t2,
+      (storeMove rec here (.dict [("source", .list [.str c, .str k]), ("target", .str port)])
+          (some (pp ++ [pname]))).run t
+        = .ok (movedReport src (tgt ++ [c, k]) (here ++ [c, k]), t2.eraseAt (here ++ [c, k]),
+               [tgt ++ [c], tgt ++ [c, k], here ++ [c, k]]) ∧
+      t.setAt (tgt ++ [c, k]) src = some t2 ∧ t2.get (tgt ++ [c, k]) = some src := by
+  have happ : tgt ++ [c, k] = (tgt ++ [c]) ++ [k] := by simp
+  obtain ⟨t2, h2, g2⟩ := Tree.setAt_child t (tgt ++ [c]) k src tcn htcn
+  have e2 : t2.get ((tgt ++ [c]) ++ [k]) = some src := Tree.get_setAt_self _ _ _ _ h2
+  have hw1 : walkT t here [c, k] = .ok (here ++ [c, k]) := by
+    simp [walkT, hc, hk, hcn, hsrc]
+  have hm := run_modify (tgt ++ [c]) (fun n => applyConfig n (.dict [])) t t tcn tcn htcn hcfg
+    (Tree.setAt_get_self t _ tcn htcn)
+  refine ⟨t2, ?_, happ ▸ h2, happ ▸ e2⟩
+  have h2' : t.setAt (tgt ++ [c, k]) src = some t2 := by rw [happ]; exact h2
+  have hv : valPath? (.list [.str c, .str k]) = some [c, k] := by simp [valPath?]
+  have hw0 : walkT t2 here [c] = .ok (here ++ [c]) := by
+    obtain ⟨n', hn', _⟩ := Tree.attrs_setAt_outside t t2 (tgt ++ [c, k]) (here ++ [c]) src cn h2' hout hcn
+    simp [walkT, hc, hn']
+  simp [storeMove, getKey, KV.lookup, getPath, hw1, run_node, hps, htopo, hport, valPath_pathVal,
+    hwalk, hsrc, establishCfg, establishCfgOpt, establishPath, hm, htn, hnp, hchild, hc, htcn, hcol, run_setAt,
+    h2', hw0, movedReport, hv]
+
+private def leafX : Tree :=
+  .node { value := .int 1, leaf := true, updater := .str "_default", divider := .str "_default" } []
+private def mvTree2 : Tree :=
+  .node {} [("P", .node { value := procP, leaf := true, updater := .str "set", divider := .str "_default",
+                          topology := .dict [("p0", .list [.str "B"])] } []),
+            ("A", .node {} [("c", .node {} [("k", .node {} [("x", leafX)]), ("j", .node { value := .int 2 } [])])]),
+            ("B", .node {} [("c", .node {} [("b", .node { value := .int 0 } [])])])]
+
+/-- non-vacuity, through the whole `apply_update`: `A/c/k` moves to `B/c/k`; `A/c` keeps `j` -/
+example : (match (applyUpdate 4 [] (.dict [("A", .dict [("_move", .list [.dict [("source", .list [.str "c", .str "k"]),
+      ("target", .str "p0")]])])]) (some ["P"])).run mvTree2 with
+    | .ok r => (r.2.1.keysAt ["A", "c"], r.2.1.keysAt ["B", "c"], r.2.1.keysAt ["B", "c", "k"],
+                r.1.map (fun rep => rep.deletions.length))
+    | .error _ => (none, none, none, none)) =
+    (some ["j"], some ["b", "k"], some ["x"], some 1) := by decide
 
 /-- a computation whose last write is `del parent.inner[k]` at `p` and whose result satisfies `Q` -/
 private def EndsErasing {α} (p : Path) (Q : α → Prop) (m : FM α) : Prop :=
